@@ -153,6 +153,10 @@ fn prepare(rng: &mut Rng, cfg: &GenCfg, n: &mut NodeSpec) {
     if rng.chance(1, 8) {
         n.style.item_is_replaced = true;
     }
+    // the other rarely used style flag: a table box is sized like any other as far as box-sizing goes
+    if rng.chance(1, 10) {
+        n.style.item_is_table = true;
+    }
     if rng.chance(1, 2) {
         make_eligible(rng, cfg, &mut n.style);
         if rng.chance(1, 2) {
